@@ -107,7 +107,7 @@ Section Range.
     unfold overlap in Ho.
     set (L := N.of_nat (length (seg_data ct segsize segnum))) in *.
     destruct (N.ltb_spec (N.max (segnum * segsize) (rd_offset r)) (N.min (segnum * segsize + L) (rd_offset r + rd_size r))) as [Hlt|]; [|discriminate].
-    inversion Ho as [[Emax Eo1]]. clear Ho.
+    injection Ho as Emax Eo1.
     assert (Hseg : (segnum * segsize <= rd_offset r)%N) by lia.
     assert (Ho1 : (1 <= o1 <= rd_size r)%N) by (unfold L in *; lia).
     set (data := slice (N.to_nat (rd_offset r - segnum * segsize)) (N.to_nat o1) (seg_data ct segsize segnum)).
